@@ -36,13 +36,19 @@ def wbufKeys (b : WBuf) : List (Nat × Site) := [(b.buf, .nbwBuf), (b.hdr, .nbwH
 def writerKeys (x : Writer) : List (Nat × Site) :=
   (x.id, .nbwStruct) :: (x.queue.flatMap wbufKeys ++ (match x.curr with | some (wb, _) => wbufKeys wb | none => []))
 
+/-- the duplicated host name of an HTTPS request (`H->sslhost`), if any -/
+def hostKeys (h : Http) : List (Nat × Site) :=
+  match h.host with
+  | some sh => [(sh, Site.httpsHost)]
+  | none => []
+
 /-- the blocks the live objects own -/
 def expLive (t : Tables) : List (Nat × Site) :=
   t.reads.map (fun r => (r.cookie, Site.rdCookie)) ++ t.writes.map (fun r => (r.cookie, Site.wrCookie)) ++
   t.accepts.map (fun r => (r.cookie, Site.acceptCookie)) ++ t.conns.map (fun k => (k.cookie, Site.connCookie)) ++
   t.readers.flatMap (fun r => [(r.id, Site.nbrStruct), (r.buf, Site.nbrBuf)]) ++
   t.writers.flatMap writerKeys ++
-  t.https.flatMap (fun h => [(h.cookie, Site.httpCookie), (h.head, Site.httpHead)])
+  t.https.flatMap (fun h => (h.cookie, Site.httpCookie) :: (h.head, Site.httpHead) :: hostKeys h)
 
 /-- the network registrations the live objects hold: `(fd, isWrite, id)` -/
 def expNet (t : Tables) : List (Nat × Bool × Nat) :=
@@ -398,9 +404,10 @@ theorem expLive_cons_writers (t : Tables) (a : Writer) :
   simp only [expLive, List.flatMap_cons, List.count_append]; omega
 
 theorem expLive_cons_https (t : Tables) (a : Http) :
-    (expLive { t with https := a :: t.https }).Perm ((a.cookie, Site.httpCookie) :: (a.head, Site.httpHead) :: expLive t) := by
+    (expLive { t with https := a :: t.https }).Perm
+      ((a.cookie, Site.httpCookie) :: (a.head, Site.httpHead) :: (hostKeys a ++ expLive t)) := by
   rw [List.perm_iff_count]; intro k
-  simp only [expLive, List.flatMap_cons, List.count_append, List.count_cons, List.count_nil]; omega
+  simp only [expLive, List.flatMap_cons, List.cons_append, List.count_append, List.count_cons]; omega
 
 theorem expNet_cons_reads (t : Tables) (a : NetReq) :
     (expNet { t with reads := a :: t.reads }).Perm ((a.fd, false, a.cookie) :: expNet t) := by
@@ -472,7 +479,8 @@ theorem tables_nodup {t : Tables} (h : ((expLive t).map (·.1)).Nodup) :
         (x.queue.flatMap wbufKeys ++ (match x.curr with | some (wb, _) => wbufKeys wb | none => [])) := rfl
     rw [this] at hw'
     exact nodup_map_fst_flatMap_head (fun x : Writer => (x.id, Site.nbwStruct)) _ _ hw'
-  · exact nodup_map_fst_flatMap_head (fun r : Http => (r.cookie, Site.httpCookie)) (fun r => [(r.head, Site.httpHead)]) _ h7
+  · exact nodup_map_fst_flatMap_head (fun r : Http => (r.cookie, Site.httpCookie))
+      (fun r => (r.head, Site.httpHead) :: hostKeys r) _ h7
 
 theorem expLive_filter_reads {t : Tables} (h : ((expLive t).map (·.1)).Nodup) {a : NetReq} (ha : a ∈ t.reads) :
     (expLive t).Perm ((a.cookie, Site.rdCookie) :: expLive { t with reads := t.reads.filter (fun x => x.cookie != a.cookie) }) :=
@@ -513,7 +521,7 @@ theorem expLive_filter_writers {t : Tables} (h : ((expLive t).map (·.1)).Nodup)
 
 theorem expLive_filter_https {t : Tables} (h : ((expLive t).map (·.1)).Nodup) {a : Http} (ha : a ∈ t.https) :
     (expLive t).Perm ((a.cookie, Site.httpCookie) :: (a.head, Site.httpHead) ::
-      expLive { t with https := t.https.filter (fun x => x.cookie != a.cookie) }) :=
+      (hostKeys a ++ expLive { t with https := t.https.filter (fun x => x.cookie != a.cookie) })) :=
   (expLive_perm (t := t) (t' := { t with https := a :: t.https.filter (fun x => x.cookie != a.cookie) })
     (.refl _) (.refl _) (.refl _) (.refl _) (.refl _) (.refl _) (perm_filter_key (·.cookie) t.https a ha (tables_nodup h).2.2.2.2.2.2)).trans
     (expLive_cons_https { t with https := t.https.filter (fun x => x.cookie != a.cookie) } a)
